@@ -1,5 +1,5 @@
 ------------------------------ MODULE MC_Walk ------------------------------
-(* Exhaustive check of Walk: every wiring of N objects for one walker.      *)
+(* Exhaustive check of Walk: every wiring of N objects, every walker.        *)
 (* Configurations MC_Walk_<walker>_{q,t}.cfg hold; MC_Walk_<walker>_no*.cfg *)
 (* switch one guard off and must fail (negative controls).                  *)
 (* MC_Walk_length_ascoded.cfg is the object layer as coded at the pinned    *)
